@@ -171,6 +171,12 @@ def step (st : St) (args : List String) : St × String :=
   | ["pend"] =>
     (st, joinSorted (st.store.pending.map (fun e => e.1 ++ ":r")) ++ "\t" ++
          joinSorted (st.specPend.map (fun t => t.id ++ ":r")))
+  | ["pins"] =>
+    let item (e : (TxId × Nat) × List TxId) := s!"{e.1.1}:{e.1.2}>" ++ "+".intercalate (e.2.mergeSort (fun a b => a ≤ b))
+    (st, joinSorted (st.store.pendIns.map item) ++ "\t" ++ joinSorted ((Spec.Pending.spenderIndex st.specPend).map item))
+  | ["pcred"] =>
+    (st, joinSorted (st.store.pendCred.map (fun e => s!"{e.1.1}:{e.1.2}:{e.2.amt}")) ++ "\t" ++
+         joinSorted ((Spec.Pending.pendingCredits (specEnv st) st.specPend).map (fun e => s!"{e.1}:{e.2.1}:{e.2.2}")))
   | ["addrs", w] =>
     if !st.wallets.contains w then (st, "err\terr") else
     let mine := st.issued.filter (fun x => x.2.1 = w)
